@@ -143,7 +143,7 @@ class Form(Node):
             # Hyperbolic case, E usually marked as H
             cosh_E = (e + cos(ν)) / (1 + e * cos(ν))
             sinh_E = (sin(ν) * sqrt(e ** 2 - 1)) / (1 + e * cos(ν))
-            E = arctanh(sinh_E / cosh_E)
+            E = np.arcsinh(sinh_E)
 
         return np.array([a, e, i, Ω, ω, E], dtype=float)
 
